@@ -23,15 +23,17 @@ FORBIDDEN = re.compile(r"\bsorry\b|\badmit\b|^\s*(private\s+|protected\s+)?axiom
 TRUSTED_BASE = [
     "Lean 4.33.0 kernel; every cited name must be a theorem with axioms within {propext, Classical.choice, Quot.sound} (audited per run); forbidden-construct grep; "
     "thorough tier: leanchecker replays every SCoda module the property's modules import",
-    "the translators tools/py2lean*.py (wrap, view, elem, rel2, static, tok, abs2, util) and tools/gen_lean.py — everything under lean/SCoda/Gen is regenerated from "
+    "the translators tools/py2lean*.py (wrap, view, elem, rel2, static, tok, abs2, util, heap, heap2, sort) and tools/gen_lean.py — everything under lean/SCoda/Gen is regenerated from "
     "/repo on every run; their conventions (a sequence object is its message list or a list of references into a heap of message objects; None = -1; int unbounded; "
     "a float is an exact rational, IEEE rounding not modelled; dicts as insertion-ordered association lists; iterators run to their end; proved fuel for while loops; "
     "logger calls dropped; exception classes the properties never distinguish share a constructor)",
     "tools/conventions.py + tools/conventions_baseline.json: special methods, class-level and module-level statements, settings imports and linked bodies of the source "
     "are fingerprinted and compared with the recorded baseline on every run (what the translators do not translate); trusted: that the baseline source means what "
     "the link tables say",
-    "link tables Model/ViewLib, ElemLib, StaticLib, TokLib, UtilLib (hand-written Lean for Python called by name; most entries are proved equal to their translation: "
-    "DESIGN 9.2e lists the exceptions: list.sort, mido_open, int(str)/split/zfill, numpy.digitize); effects of a callee on its non-receiver arguments are dropped",
+    "link tables Model/ViewLib, ElemLib, StaticLib, TokLib, TokLib2, UtilLib, SortLib, MidoCodec, HeapLib, HeapLib2 (hand-written Lean for Python called by name or for "
+    "Python language features; most entries are proved equal to their translation: DESIGN 9.2e lists the exceptions: CPython's list.sort being a stable comparison sort, mido_open, "
+    "int(str)/split/zfill, set/sorted on ints, numpy.digitize, the five view-level identity links of HeapLib); effects of a callee on its non-receiver arguments are dropped; "
+    "scoda/config/default_settings.json is an input of the proofs",
     "mido's file codec (written messages are read back as written), sampled by the C12/C13 oracles through real files",
     "harness/protocol.py + lean/Driver.lean + lean/HeapDriver.lean + harness/heap_corr.py (canonical printing/parsing on both sides of the correspondence); the property "
     "oracles, the known-finding predicates (decide KNOWN-FINDING vs VIOLATION) and the oracles' domain skips (counted in `distribution`)",
